@@ -23,6 +23,7 @@ func TestVerif(t *testing.T) {
 		"c18_lexer":  c18Lexer,
 		"c18_chunks": c18Chunks,
 		"c18_long":   c18Long,
+		"c18_lines":  c18Lines,
 	})
 }
 
@@ -520,6 +521,87 @@ func c18Long(c *vrep.Ctx) {
 		}
 		if m := r.Note["msg"].(string); m != "" {
 			c.Violate("c18_long:"+strings.ReplaceAll(id, " ", "_"), id+": "+m, r, m)
+		}
+	})
+}
+
+// c18Lines: the comment's place in the FILE varies: every number of preceding lines 0..N (plain
+// code lines, blank lines, or single-line comments), then a single-line comment, a multi-line
+// comment and another single-line comment; line numbers against the reference lexer.
+func c18Lines(c *vrep.Ctx) {
+	langs := []int{2, langPython, langHTML, 18, langGo, 32}
+	maxLines := c.Pick(2100, 70000)
+	fills := []string{"code()", "", "@comment"}
+	c.R.Rule = fmt.Sprintf("for %d languages x preceding lines of 3 kinds (code, blank, a single-line comment each) x EVERY count 0..%d (thorough: and around 2^12..2^16) : a single-line comment, a multi-line comment over two lines and a second single-line comment follow; Parse (comments, their text and line numbers) against the reference lexer; non-trivial = all cases", len(langs), 2100)
+	c.Bound("max_preceding_lines", maxLines)
+	var counts []int
+	for n := 0; n <= 2100; n++ {
+		counts = append(counts, n)
+	}
+	if c.Thorough() {
+		for _, b := range []int{4096, 8192, 16384, 32768, 65536} {
+			for d := -3; d <= 3; d++ {
+				counts = append(counts, b+d)
+			}
+		}
+	}
+	body := func(r *vx.Run) {
+		lang := langs[r.Choose(len(langs), "language")]
+		fill := fills[r.Choose(len(fills), "filler kind")]
+		if r.Scout() {
+			return
+		}
+		n := counts[r.Choose(len(counts), "lines")]
+		d := refTable[lang]
+		single := func(t string) string {
+			if d.single != "" {
+				return d.single + " " + t
+			}
+			return d.mstart + " " + t + " " + d.mend
+		}
+		line := fill
+		if fill == "@comment" {
+			line = single("filler")
+		}
+		var sb strings.Builder
+		for i := 0; i < n; i++ {
+			sb.WriteString(line)
+			sb.WriteByte('\n')
+		}
+		sb.WriteString("code() " + single("first") + "\n")
+		if d.mstart != "" {
+			sb.WriteString(d.mstart + " second\nstill second " + d.mend + "\n")
+		}
+		sb.WriteString(single("third") + "\nrest()\n")
+		src := sb.String()
+		msg := ""
+		var got Comments
+		func() {
+			defer func() {
+				if x := recover(); x != nil {
+					msg = fmt.Sprint("panic: ", x)
+				}
+			}()
+			got = Parse([]byte(src), language.Language(lang))
+		}()
+		want := refLex(src, lang)
+		if msg == "" && fmtGot(got) != fmtRef(want) {
+			g, w := fmtGot(got), fmtRef(want)
+			if len(g) > 300 {
+				g = "..." + g[len(g)-300:]
+			}
+			if len(w) > 300 {
+				w = "..." + w[len(w)-300:]
+			}
+			msg = fmt.Sprintf("Parse found %s, the reference lexer %s", g, w)
+		}
+		r.Note = map[string]interface{}{"id": fmt.Sprintf("language %d, %d preceding lines of %q", lang, n, line), "msg": msg}
+	}
+	c.Run(vSplit(c, 0, 2), body, func(r *vx.Run) {
+		c.R.Nontrivial++
+		if m := r.Note["msg"].(string); m != "" {
+			id := r.Note["id"].(string)
+			c.Violate("c18_lines:"+strings.ReplaceAll(id, " ", "_"), id+": "+m, r, m)
 		}
 	})
 }
